@@ -20,6 +20,7 @@ LEAN = os.path.join(VERIF, "lean")
 HARNESS_DIR = os.path.join(VERIF, "harness")
 BUILD = os.path.join(VERIF, "build")
 HARNESS = os.path.join(BUILD, "harness-target", "release", "pfv-harness")
+HARNESS_REL = os.path.join(BUILD, "harness-target", "relsem", "pfv-harness")      # built without debug assertions / overflow checks
 DRIVER = os.path.join(LEAN, ".lake", "build", "bin", "pfv-driver")
 REPLAYS = os.path.join(VERIF, "replays")
 EVIDENCE = os.path.join(VERIF, "evidence")
@@ -312,6 +313,9 @@ def build_harness():
         shutil.copy(os.path.join(REPO, "Cargo.lock"), lock)
     env = dict(ENV, CARGO_TARGET_DIR=os.path.join(BUILD, "harness-target"))
     rc, out, err = sh(["cargo", "build", "--release", "--offline"], cwd=src, timeout=3000, env=env)
+    if rc == 0:
+        # second build with the semantics of an ordinary release build (see harness/Cargo.toml, profile relsem)
+        rc, out, err = sh(["cargo", "build", "--profile", "relsem", "--offline"], cwd=src, timeout=3000, env=env)
     return dict(ok=rc == 0, msg=(err or out)[-1500:] if rc != 0 else "", wall=time.time() - t0)
 
 
@@ -332,8 +336,11 @@ NPROC = max(2, min(16, os.cpu_count() or 4))
 STREAM_TIMEOUT = [900]      # seconds for one harness / driver invocation (raised for the thorough tier)
 
 
+USE_REL = [False]          # set by the streams that want the release-semantics build for their next harness calls
+
+
 def _harness_one(args, timeout=None):
-    rc, out, err = sh([HARNESS] + args, timeout=timeout or STREAM_TIMEOUT[0])
+    rc, out, err = sh([HARNESS_REL if USE_REL[0] else HARNESS] + args, timeout=timeout or STREAM_TIMEOUT[0])
     if rc != 0:
         raise RuntimeError("harness %s failed: %s" % (args[:2], err[-300:]))
     return out
@@ -479,8 +486,16 @@ def case_of(req_line):
                     and not t.startswith("mutated=") and not t.startswith("rewritten=") and not t.startswith("nv=") and not t.startswith("nm="))
 
 
+REL_CASES = set()          # failing cases observed on the release-semantics build (see harness/Cargo.toml, profile relsem)
+RERUN_REL = [False]        # re-run / minimise on that build
+
+
 def rerun_case(case_line):
-    req = harness_lines(["case"] + case_line.split(" "))
+    USE_REL[0] = RERUN_REL[0]
+    try:
+        req = harness_lines(["case"] + case_line.split(" "))
+    finally:
+        USE_REL[0] = False
     out = [l for l in drive(req) if l.startswith("oracle ")]
     return req.strip(), toks(out[0]) if out else {}
 
@@ -636,7 +651,15 @@ def stream_oracle(cx, profiles=None, mult=1, stop_on_first=False):
         jextra = ["--order", "desc"] if pi % 2 == 0 else []
         jobcmd = "%s oracle --cases %d --seed %d --profile %s --unsafe %s %s | %s %s" % (
             HARNESS, n * mult, jseed, prof, P["unsafe"], " ".join(jextra), DRIVER, os.path.join(REPO, "data", "stdlib_complete.txt"))
-        for (req, v) in run_oracle(n * mult, jseed, prof, P["unsafe"], extra=jextra):
+        # every other job runs on the build without debug assertions and overflow checks (what `--release` users get)
+        USE_REL[0] = (pi % 2 == 1)
+        if USE_REL[0]:
+            jobcmd = jobcmd.replace(HARNESS, HARNESS_REL, 1)
+        try:
+            pairs = run_oracle(n * mult, jseed, prof, P["unsafe"], extra=jextra)
+        finally:
+            USE_REL[0] = False
+        for (req, v) in pairs:
             cx.cov["evaluations"] += 1
             r = toks(req)
             cx.bump("P%s/%s/%s" % (r.get("P"), "rand" if r.get("mode", "").startswith("rand") else ("os-entropy" if r.get("mode") == "os" else "arb"), prof))
@@ -657,6 +680,8 @@ def stream_oracle(cx, profiles=None, mult=1, stop_on_first=False):
             if key != "gen" and v.get(key, "").startswith("FAIL"):
                 cx.failing.append(("oracle", case_of(req), v[key]))
                 cx.jobs[case_of(req)] = jobcmd
+                if pi % 2 == 1:
+                    REL_CASES.add(case_of(req))
                 if r.get("mode") == "os":
                     cx.os_outputs[case_of(req)] = r.get("result", "")[:200000]
                 if stop_on_first:
@@ -685,6 +710,13 @@ def directed_values(cx):
             le = struct.pack("<I", v).hex()
             for choice in range(7 if p >= 2 else (5 if p == 1 else 2)):
                 reqs.append("steer %s plan=Int:%02x%s" % (cfg, choice, le)); meta.append(cfg)
+    # extension codes at the edges of their widths (EXT opcodes enabled)
+    for p in range(2, 6):
+        cfg = "P=%d unsafe=0 ext=1 buf=0 mask=0 rate=0000000000000000" % p
+        for op, vals, w in (("Ext1", [0, 1, 0x7f, 0xfe, 0xff], 1), ("Ext2", [0, 1, 0xff, 0x100, 0x7fff, 0xfffe, 0xffff], 2),
+                            ("Ext4", [0, 1, 0xffff, 0x7ffffffe, 0x7fffffff, 0x80000000, 0xfffffffe, 0xffffffff], 4)):
+            for v in vals:
+                reqs.append("steer %s plan=%s:%s" % (cfg, op, v.to_bytes(w, "little").hex())); meta.append(cfg)
     outs = [l for l in drive("\n".join(reqs) + "\n") if l.startswith("steer ")]
     if len(outs) != len(reqs):
         cx.corr.append(dict(stream="directed", count=1, first="steer answered %d of %d" % (len(outs), len(reqs))))
@@ -693,15 +725,20 @@ def directed_values(cx):
     for k, (cfg, o) in enumerate(zip(meta, outs)):
         if o.startswith("steer ok"):
             lines.append("id=%d %s min=1 max=1 warm=0 mode=arb:%s" % (k, cfg, toks(o).get("bytes", "-")))
-    rc, req, err = sh([HARNESS, "oracle", "--stdin"], inp="\n".join(lines) + "\n", timeout=STREAM_TIMEOUT[0])
-    if rc != 0:
-        cx.corr.append(dict(stream="directed", count=1, first="harness oracle --stdin failed: " + err[-200:]))
-        return
-    rl = [l for l in req.split("\n") if l.startswith("oracle ")]
-    vs = [toks(l) for l in drive(req) if l.startswith("oracle ")]
+    rl, vs = [], []
+    for binary in (HARNESS, HARNESS_REL):
+        rc, req, err = sh([binary, "oracle", "--stdin"], inp="\n".join(lines) + "\n", timeout=STREAM_TIMEOUT[0])
+        if rc != 0:
+            cx.corr.append(dict(stream="directed", count=1, first="harness oracle --stdin failed: " + err[-200:]))
+            return
+        rl += [l for l in req.split("\n") if l.startswith("oracle ")]
+        vs += [toks(l) for l in drive(req) if l.startswith("oracle ")]
     key = cx.P["key"]
     cx.cov["directed_value_cases"] = len(rl)
-    for r, v in zip(rl, vs):
+    half = len(rl) // 2
+    for idx, (r, v) in enumerate(zip(rl, vs)):
+        if idx >= half and ((v.get("gen") != "ok" and key == "gen") or (key != "gen" and v.get(key, "").startswith("FAIL"))):
+            REL_CASES.add(case_of(r))
         cx.cov["evaluations"] += 1
         cx.bump("directed-values")
         if v.get("gen") != "ok":
@@ -1231,6 +1268,8 @@ def check_property(prop, tier, seed):
                                  note="judge the recorded bytes: echo 'oracle <case> result=<output>' | pfv-driver"))
                 violations.append((p, ""))
                 continue
+            RERUN_REL[0] = cl in REL_CASES
+            extra_fields = {}
             if stream == "oracle" and P["key"] != "gen":
                 mcl = minimise(cl, P["key"])
                 _, v = rerun_case(mcl)
@@ -1244,8 +1283,12 @@ def check_property(prop, tier, seed):
                                         fails_only_inside_process=cx.jobs.get(cl, "the oracle job that produced it"),
                                         note="run alone in a fresh process this case meets the property; inside the job above (same process, earlier "
                                              "generators of other protocols/configurations before it) the output with this id violates it")
+            if RERUN_REL[0]:
+                extra_fields = dict(extra_fields, harness_build="relsem: built without debug assertions and overflow checks, i.e. what `cargo build --release` gives users "
+                                    "(on the assertion build the same input may end in a panic instead, which is C09's business)")
+            RERUN_REL[0] = False
             p = write_replay(prop, "failing-input", dict(stream=stream, case=mcl, observed=det,
-                                                         required="the property holds on this input", original_case=cl[:2000], **(extra_fields if stream == "oracle" and P["key"] != "gen" else {})))
+                                                         required="the property holds on this input", original_case=cl[:2000], **(extra_fields if stream == "oracle" else {})))
             if any(ok_ in k for ok_ in open_keys):
                 known_lines.append("KNOWN-FINDING: property=%s %s (replay %s)" % (prop, det[:200], p))
             else:
@@ -1626,6 +1669,18 @@ def cycle_plans(p):
                     plans.append(base + [put, get, "Dup"] + cl)
                     plans.append(base + [put, get] + cl)
                     plans.append(base + [put, "Pop", get, "Dup"] + cl)
+                # a memoised *wrapper* of the object (a tuple holding an alias of it), fetched back and stored into it
+                if p >= 2:
+                    for cl in close1:
+                        if cl[0] == "Dup":
+                            continue
+                        plans.append(base + ["Dup", "Tuple1", put, "Pop", get] + cl)
+                    wm = {"l": ["Appends"], "d": None, "e": ["AddItems"], "o": None}[x]
+                    if wm:
+                        plans.append(base + ["Dup", "Tuple1", put, "Pop", "Mark", get] + wm)
+                    if x == "d":
+                        plans.append(base + ["Dup", "Tuple1", put, "Pop", "Mark", get, "Int:01", "SetItems"])
+                        plans.append(base + ["Dup", "Tuple1", put, "Pop", "Mark", "Int:01", get, "SetItems"])
                 closem = {"l": [["Mark", get, "Appends"]], "d": [["Mark", "Int:01", get, "SetItems"], ["Mark", get, "Int:01", "SetItems"]],
                           "e": [["Mark", get, "AddItems"]], "o": []}[x]
                 for cl in closem:
@@ -1794,6 +1849,7 @@ def replay(path):
             bad = v.get(key, "").startswith("FAIL")
             print("verdict inside that process:", v.get(key), "(required ok)")
         elif stream == "oracle":
+            RERUN_REL[0] = str(body.get("harness_build", "")).startswith("relsem")
             req, v = rerun_case(body["case"])
             bad = v.get("gen") != "ok" if key == "gen" else v.get(key, "").startswith("FAIL")
             print("verdict:", v.get(key), "(required ok)")
